@@ -12,9 +12,12 @@ Local Open Scope Z_scope.
 Section GenDiv.
 Context {FA ZA : Arith}.
 Variables (R : FA -> ZA -> Prop) (N : ZA -> Z).
+(* Dfit a b: what the division a / b needs beyond an exact quotient smaller than 2^53 (nothing for a real division;
+   for the complex one, the sizes of the products it forms) *)
+Variable Dfit : ZA -> ZA -> Prop.
 Hypothesis EL : ExactLaws R R N.
 Hypothesis R_eqb0 : forall x a, R x a -> eqb x zero = eqb a zero.
-Hypothesis R_div : forall x y a b c, R x a -> R y b -> div a b = Ok c -> N c < B53 ->
+Hypothesis R_div : forall x y a b c, R x a -> R y b -> Dfit a b -> div a b = Ok c -> N c < B53 ->
   exists z, div x y = Ok z /\ R z c.
 Let R_zero : R zero zero := el_Rs_zero _ _ _ EL.
 
@@ -63,9 +66,9 @@ Proof. induction n; cbn; constructor; auto. Qed.
 (* what one pass of the loop must satisfy, on the integer side: the quotient term c, the updated quotient, the
    products c * v_j and the updated remainder are all smaller than 2^53 *)
 Definition body_fits (qz rz vz : list ZA) : Prop :=
-  forall c, (let* rl := rd rz (length rz - 1) in let* vl := rd vz (length vz - 1) in div rl vl) = Ok c ->
+  forall rl vl c, rd rz (length rz - 1) = Ok rl -> rd vz (length vz - 1) = Ok vl -> div rl vl = Ok c ->
     let t := repeat zero ((length rz - 1) - (length vz - 1)) ++ [c] in
-    N c < B53 /\ Forall fitsN (padd qz t) /\ conv_fits N t vz /\ Forall fitsN (psub rz (pmul t vz)).
+    Dfit rl vl /\ N c < B53 /\ Forall fitsN (padd qz t) /\ conv_fits N t vz /\ Forall fitsN (psub rz (pmul t vz)).
 
 Lemma gen_body q r v qz rz vz qz' rz' : Forall2 R q qz -> Forall2 R r rz -> Forall2 R v vz ->
   body_fits qz rz vz -> polydiv_body qz rz vz = Ok (qz', rz') ->
@@ -73,12 +76,12 @@ Lemma gen_body q r v qz rz vz qz' rz' : Forall2 R q qz -> Forall2 R r rz -> Fora
 Proof.
   intros Hq Hr Hv Hf E. unfold polydiv_body in *. unfold body_fits in Hf.
   rewrite (F2_length _ _ _ Hr), (F2_length _ _ _ Hv).
-  destruct (rd rz (length rz - 1)) as [rl|] eqn:E1; [|discriminate]. cbn [bind] in E, Hf.
-  destruct (rd vz (length vz - 1)) as [vl|] eqn:E2; [|discriminate]. cbn [bind] in E, Hf.
+  destruct (rd rz (length rz - 1)) as [rl|] eqn:E1; [|discriminate]. cbn [bind] in E.
+  destruct (rd vz (length vz - 1)) as [vl|] eqn:E2; [|discriminate]. cbn [bind] in E.
   destruct (div rl vl) as [c|] eqn:E3; [|discriminate]. cbn [bind] in E.
-  destruct (Hf c eq_refl) as (Fc & Fq & Fm & Fr). clear Hf.
+  destruct (Hf rl vl c eq_refl eq_refl E3) as (Fd & Fc & Fq & Fm & Fr). clear Hf.
   destruct (gen_rd _ _ Hr _ _ E1) as (xl & -> & Rl). destruct (gen_rd _ _ Hv _ _ E2) as (yl & -> & Rv). cbn [bind].
-  destruct (R_div _ _ _ _ _ Rl Rv E3 Fc) as (z & -> & Rz). cbn [bind].
+  destruct (R_div _ _ _ _ _ Rl Rv Fd E3 Fc) as (z & -> & Rz). cbn [bind].
   set (n := (length rz - 1 - (length vz - 1))%nat) in *.
   assert (Ht : Forall2 R (repeat zero n ++ [z]) (repeat zero n ++ [c])).
   { apply Forall2_app; [apply gen_repeat_zero|]. constructor; auto. }
@@ -106,6 +109,20 @@ Fixpoint loop_fits (fuel count : nat) (qz rz vz : list ZA) : Prop :=
       forall qr, polydiv_body qz rz vz = Ok qr ->
         if (POLYDIV_MAX <? S count)%nat then True else loop_fits fuel' (S count) (fst qr) (snd qr) vz
   end.
+
+(* stepping lemmas (to establish loop_fits on concrete data without unfolding the fuel) *)
+Lemma loop_fits_0 count qz rz vz : loop_fits 0 count qz rz vz.
+Proof. cbn [loop_fits]. now destruct (is_zero rz || (length rz <? length vz)%nat). Qed.
+Lemma loop_fits_stop fuel count qz rz vz : is_zero rz || (length rz <? length vz)%nat = true ->
+  loop_fits fuel count qz rz vz.
+Proof. intros H. destruct fuel; cbn [loop_fits]; rewrite H; exact I. Qed.
+Lemma loop_fits_step fuel count qz rz vz : body_fits qz rz vz ->
+  (forall qr, polydiv_body qz rz vz = Ok qr -> loop_fits fuel (S count) (fst qr) (snd qr) vz) ->
+  loop_fits (S fuel) count qz rz vz.
+Proof.
+  intros Hb Hn. cbn [loop_fits]. destruct (is_zero rz || (length rz <? length vz)%nat); [exact I|].
+  split; [exact Hb|]. intros qr E. destruct (POLYDIV_MAX <? S count)%nat; [exact I|]. now apply Hn.
+Qed.
 
 Definition rel_out (o : list FA * list FA + pderr) (oz : list ZA * list ZA + pderr) : Prop :=
   match o, oz with
